@@ -422,3 +422,18 @@ package keeper
 //@ func (Keeper).GetTokenPrice
 //@ modifies table:amm~:types.KeyPrefix/types.PoolKey
 //@ frame-only
+
+// A portion of a coin collection (rounded to the nearest unit) is, denom by denom, between nothing and the
+// whole, for a portion between zero and one. Used by contract where the collection is symbolic (C13, C18).
+//@ func PortionCoins
+//@ decabstract
+//@ modular-for (Keeper).CollectGasFees, (Keeper).CollectPerpRevenue, (Keeper).CollectDEXRevenue
+//@ forall d Str
+//@ modifies nothing
+//@ ensures C13,C18/a-portion-is-at-most-the-whole: portion >= 0 && portion <= 1000000000000000000 && amt(coins, d) >= 0 ==> amt(result0, d) >= 0 && amt(result0, d) <= amt(coins, d)
+
+// Walks the pool table and hands each stored pool to the caller's function until that answers true; writes
+// nothing itself (its own body has no store write: checked as its frame). A caller that states a
+// `callback-invariant` for it is verified against that invariant instead of an unrolled loop.
+//@ func (Keeper).IterateLiquidityPools
+//@ iterates handlerFn
